@@ -53,6 +53,7 @@ type visCase struct {
 	ended  int
 	ops    []string
 	closed bool
+	noErrOnClosed int // PutConn / NewConn on a closed listener that reported success
 }
 
 func (v *visCase) render() string {
@@ -89,6 +90,9 @@ func listenerCase(g *hx.Gen, full bool) (*visCase, string) {
 		byConn[a] = p
 		before := queued
 		err := l.PutConn(a)
+		if v.closed && err == nil {
+			v.noErrOnClosed++
+		}
 		if err != nil {
 			_ = a.Close() // what Service.handleConnection does with the error of RegisterVisitorConn
 		} else if !v.closed && before < ilCap {
@@ -325,6 +329,52 @@ func stcpCase(g *hx.Gen, idx int, held bool) (*visCase, string) {
 	return v, ""
 }
 
+// ---- part C: the window of STCPProxy.Close: the internal listener is closed, the visitor-listener entry is still
+// registered; a correctly signed visitor connection arrives.  Real visitor.Manager + InternalListener.  NewConn
+// must report an error, and the caller (the harness does what Service.handleConnection does) closes the connection.
+func closingWindowCase(g *hx.Gen, idx int) (*visCase, string) {
+	vm := visitor.NewManager()
+	name := fmt.Sprintf("win%d", idx)
+	l, err := vm.Listen(name, "sk", []string{"*"})
+	if err != nil {
+		return nil, err.Error()
+	}
+	v := &visCase{}
+	k := 1 + g.Intn(3)
+	_ = l.Close() // the entry stays registered
+	v.closed = true
+	v.reqs = append(v.reqs, "IClose")
+	v.sched = append(v.sched, "0")
+	var peers []net.Conn
+	for i := 0; i < k; i++ {
+		a, b := net.Pipe()
+		peers = append(peers, b)
+		tid := len(v.reqs)
+		v.reqs = append(v.reqs, "IPut")
+		ts := time.Now().Unix()
+		err := vm.NewConn(name, a, ts, util.GetAuthKey("sk", ts), false, false, "someone")
+		if err != nil {
+			_ = a.Close() // Service.handleConnection: error reply, conn.Close()
+		} else {
+			v.noErrOnClosed++ // the visitor is answered "success"
+		}
+		v.sched = append(v.sched, fmt.Sprint(tid), fmt.Sprint(tid))
+	}
+	for _, p := range peers {
+		if peerClosed(p, 150*time.Millisecond) {
+			v.fates = append(v.fates, 2)
+		} else {
+			v.fates = append(v.fates, 3)
+		}
+	}
+	v.ended = 2 // no accept loop will ever receive from the closed listener
+	v.ops = append(v.ops, fmt.Sprintf("closing-window k=%d", k))
+	for _, p := range peers {
+		p.Close()
+	}
+	return v, ""
+}
+
 func runVisitor(cfg *hx.RunCfg) error {
 	quiet()
 	g := hx.NewGen(cfg.Seed)
@@ -340,6 +390,9 @@ func runVisitor(cfg *hx.RunCfg) error {
 		case i == 0:
 			kind = "listener-full"
 			v, bad = listenerCase(g, true)
+		case i%8 == 3:
+			kind = "closing-window"
+			v, bad = closingWindowCase(g, i)
 		case i%3 == 1:
 			kind = "stcp-held"
 			v, bad = stcpCase(g, i, true)
@@ -364,6 +417,11 @@ func runVisitor(cfg *hx.RunCfg) error {
 		if v.ended >= 1 && lost > 0 {
 			fails = append(fails, map[string]any{"key": "visitor-conn-stranded:" + kind,
 				"what": fmt.Sprintf("%d visitor connection(s) queued in the listener are still open and unserved after the accept loop has stopped", lost),
+				"case": fmt.Sprintf("seed=%d case=%d %v", cfg.Seed, i, v.ops)})
+		}
+		if v.noErrOnClosed > 0 {
+			fails = append(fails, map[string]any{"key": "visitor-conn-accepted-by-closed-listener:" + kind,
+				"what": fmt.Sprintf("%d visitor connection(s) offered to a closed internal listener were reported as accepted (no error): the visitor is answered success although nobody will ever serve the connection", v.noErrOnClosed),
 				"case": fmt.Sprintf("seed=%d case=%d %v", cfg.Seed, i, v.ops)})
 		}
 		text := v.render()
